@@ -1,16 +1,16 @@
-\* manual mode, "wide": all identifiers incl. nullptr, remove(), ties and past time points; <= 3 sleeps pending
+\* manual mode with an interval() generator (period 2) driven through a stop token, next to ordinary sleeps
 SPECIFICATION Spec
 CONSTANTS
   Mode = "manual"
-  TPs = {1, 2}
-  Nows = {0, 1, 2}
-  Ids = {0, 1, 2}
-  CancelIds = {0, 1, 2}
+  TPs = {1, 3}
+  Nows = {1, 2, 3}
+  Ids = {0, 1}
+  CancelIds = {1}
   MaxSleeps = 3
-  MaxHeap = 3
+  MaxHeap = 4
   MaxOps = 0
-  AllowRemove = TRUE
-  Interval = 0
+  AllowRemove = FALSE
+  Interval = 2
   NC = 1
 INVARIANTS TypeOK HeapWellFormed LiveMatchesPending NeverEarly DeadlineOrder PromptManual CancelHitsOne NotifyWhenEarliest NothingAfterDestroy IntervalConsistent
 PROPERTIES ExactlyOncePerSleep LiveFrame CancelFalseNoEffect DestroyCancelsPending
